@@ -136,4 +136,9 @@ Emit == PrintT(ToJson([h |-> hist, s |-> [s \in 1..K |-> Export(s)]]))
 GenAlphabet == {-3, -1, 0, 2, 3}
 GenAlphabetSmall == {-1, 0, 2}
 GenAlphabetTiny == {0, 1, 2}
+\* unequally spaced: short multisets over it include asymmetric samples whose third central moment
+\* vanishes exactly while the fifth does not (9,5,5,5,0,0: deviations 5,1,1,1,-4,-4), and samples
+\* in which an observation equals the running mean -- the degenerate cases of the odd-order terms
+\* of the higher-moment recurrences
+GenAlphabetZeroSkew == {0, 5, 9}
 =============================================================================
